@@ -1349,6 +1349,9 @@ class World:
         k = ex.choose([exists, none])
         if k == 1:
             ex.throw("KeyError", node, origin="dict-key")
+        vd = getattr(m, "val_desc", None)      # typed values (a descriptor with unbox), e.g. (reference, constraints) pairs
+        if vd is not None:
+            return vd.unbox(ex, z3.Select(m.vals, j))
         return VObj(z3.Select(m.vals, j))
 
     def obj_getitem(self, ex, obj, key, node):
